@@ -306,10 +306,13 @@ func (m *Mux) Close() error {
 	// registered under the same lock, so no writer can be added after this
 	// point.
 	close(m.done)
-	m.ctxCancelFunc()
+	// Close the underlays before canceling the master context. An event loop
+	// closes its network connection when the context is done, and the sessions
+	// still need that connection to tell their peers that they are closing.
 	for _, underlay := range m.underlays {
 		underlay.Close()
 	}
+	m.ctxCancelFunc()
 	m.underlays = make([]Underlay, 0)
 	m.mu.Unlock()
 
